@@ -121,7 +121,7 @@ func rpcTable(thorough bool) []*rpcDef {
 	}
 	gtS := schemaGossipTrx(thorough)
 	gvS := schemaGossipVrx(thorough)
-	pvS := schemaPeerVertex(thorough, true)
+	pvS := schemaPeerVertex(thorough, true, true)
 	cdS := schemaConnectionData()
 	return []*rpcDef{
 		{name: "Notary.Alive", sch: alive, noCons: true,
